@@ -260,7 +260,9 @@ def finish(pid, tier, seed, mod, plan, records, wcounters, wsets, harness_notes,
         inconclusive.append("wall-clock watchdog fired")
 
     # replay files + stdout
-    rdir = ROOT / "replay" / pid
+    # scratch-worktree trials (VF_REPO_ROOT set) must not overwrite /repo's evidence / replays
+    scratch = os.environ.get("VF_SCRATCH_OUT")
+    rdir = (Path(scratch) if scratch else ROOT) / "replay" / pid
     out_lines: list[str] = []
     shown: Counter = Counter()
     nrep = 0
@@ -312,8 +314,8 @@ def finish(pid, tier, seed, mod, plan, records, wcounters, wsets, harness_notes,
         "wall_s": round(wall, 2),
         "violations": len(violations),
     }
-    edir = ROOT / "evidence"
-    edir.mkdir(exist_ok=True)
+    edir = (Path(scratch) if scratch else ROOT) / "evidence"
+    edir.mkdir(parents=True, exist_ok=True)
     (edir / f"{pid}.json").write_text(json.dumps(evidence, indent=1, default=str) + "\n")
 
     for line in out_lines:
